@@ -444,3 +444,46 @@ func Tiered(tier string, quick, thorough int) int {
 	}
 	return quick
 }
+
+// MergeEarlier folds the evidence file an earlier engine of the same check has just written for this property into
+// this run (the driver runs the engines of a two-engine check in order and passes -merge to the later one): the
+// earlier engine's coverage is kept under "earlier_engine", evaluations and distinct_nontrivial become the sums.
+func (r *Run) MergeEarlier(thisEngine string) {
+	dir := VerifDir
+	if d := os.Getenv("VERIF_OUT_DIR"); d != "" {
+		dir = d
+	}
+	data, err := os.ReadFile(filepath.Join(dir, "evidence", r.Prop+".json"))
+	if err != nil {
+		r.Inconclusive("merge requested but the earlier engine's evidence is missing")
+		return
+	}
+	var ev struct {
+		Coverage   map[string]interface{} `json:"coverage"`
+		Violations int                    `json:"violations"`
+		Engine     string                 `json:"engine"`
+		WallS      float64                `json:"wall_s"`
+	}
+	if err := json.Unmarshal(data, &ev); err != nil {
+		r.Inconclusive("merge requested but the earlier engine's evidence does not parse")
+		return
+	}
+	r.Set("earlier_engine", map[string]interface{}{"engine": ev.Engine, "coverage": ev.Coverage, "violations": ev.Violations, "wall_s": ev.WallS})
+	if v, ok := ev.Coverage["evaluations"].(float64); ok {
+		r.Count("earlier_engine_evaluations", int64(v))
+		r.ExtraEvaluations += int64(v)
+	}
+	if v, ok := ev.Coverage["distinct_nontrivial"].(float64); ok {
+		r.Count("earlier_engine_distinct_nontrivial", int64(v))
+		r.ExtraNontrivial += int64(v)
+	}
+	if sm, ok := ev.Coverage["samples"].([]interface{}); ok {
+		for i, x := range sm {
+			if i < 2 {
+				r.Sample(map[string]interface{}{"from_engine": ev.Engine, "sample": x})
+			}
+		}
+	}
+	r.Rule = "ENGINE 1 (" + ev.Engine + "): " + fmt.Sprint(ev.Coverage["rule"]) + " || ENGINE 2 (" + thisEngine + "): " + r.Rule +
+		" || evaluations and distinct_nontrivial are the sums over both engines (fingerprints of different engines never coincide)"
+}
